@@ -130,6 +130,7 @@ type drv struct {
 	nontrivial bool
 	bufs       [][]byte
 	cls        string
+	skipped    int  // script commands skipped because the real execution had diverged from the model's
 	rec        []Ev // recorded events (for the comparison with the model's prediction)
 	spare      []*sonic.Timer
 	mu         sync.Mutex
@@ -395,6 +396,14 @@ func (d *drv) exec(c Ev) {
 	switch c.Ev {
 	case "Call":
 		ob := d.objs[c.O-1]
+		// The script comes from the model; when the real execution took another (equally legal)
+		// branch - e.g. the kernel delivered a poll batch in another order - a command may arrive
+		// where the API contract does not allow it: one operation per direction at a time, nothing
+		// on a closed object. Such commands are skipped.
+		if ob.closed || (c.Dir == "R" && ob.inR != 0) || (c.Dir == "W" && ob.inW != 0) {
+			d.skipped++
+			return
+		}
 		d.ops[c.Op] = &opinfo{o: c.O, dir: c.Dir}
 		if c.Dir == "R" {
 			ob.inR = c.Op
